@@ -1414,7 +1414,8 @@ bool Interpret::is_top_level_assertion(PTRef ref) {
 }
 
 int Interpret::get_assertion_index(PTRef ref) {
-    for (int i = 0; i < assertions.size(); ++i) {
+    // The record of assertions is never popped, and the solver files a formula under the index of its latest assertion
+    for (int i = assertions.size() - 1; i >= 0; --i) {
         if (ref == assertions[i]) { return i;}
     }
     return -1;
